@@ -511,6 +511,11 @@ def gen_history(rng, maxlen):
         op = {"k": "set", "key": key, "vsh": vsh, "vflat": vflat}
         if dt != "int64":
             op["vflat"], op["vk"] = retype_value(rng, dt, fill, vsh, vflat, tags)
+            if key.get("render") == "tuple1int" and op["vk"] == "npint":
+                # NumPy reads (i,) as a BASIC index, the code as an integer list: the two conversions of a
+                # NumPy scalar differ by key form, so this rendering takes Python scalars only
+                lo, hi = DT_RANGE[dt]
+                op["vflat"], op["vk"] = [min(max(op["vflat"][0], lo), hi)], "int"
         ops.append(op)
 
     for i in range(n):
